@@ -18,6 +18,7 @@ fn opts_of(cfg: &serde_json::Value) -> Opts {
         range_form: match cfg["range_form"].as_str() {
             Some("addr") => wdwarf::RangeForm::Addr,
             Some("unit-ranges") => wdwarf::RangeForm::UnitRanges,
+            Some("data4") => wdwarf::RangeForm::OffsetData4,
             _ => wdwarf::RangeForm::Offset,
         },
         nested: cfg["nested"].as_bool().unwrap_or(false),
@@ -340,7 +341,7 @@ pub fn cases(args: &Args) -> Vec<Case> {
             for nopv in [false, true] {
                 for big in if n > 1 { vec![0, n - 1] } else { vec![0] } {
                     for version in [4u16, 5] {
-                        for range_form in ["addr", "unit-ranges"] {
+                        for range_form in ["addr", "unit-ranges", "data4"] {
                             for edit in ["none", "gc", "insert"] {
                                 let wasm = wgen::families::build_leb_x(n, big, s, nopv, edit == "gc");
                                 out.push(Case {
